@@ -61,6 +61,36 @@ theorem get_ok (r : Ring) (h : r.wfq) (pos take : Nat) (hle : pos + take ≤ r.l
     simp only [Msg.flat, List.flatten_nil, List.append_nil, Mem.getElem?_read, List.getElem?_take, List.getElem?_drop, hc]
     grind
 
+/-- shape of the message: one fragment unless the stretch starts in the first data part and runs beyond it -/
+theorem get_shape (r : Ring) (h : r.wfq) (pos take : Nat) (hle : pos + take ≤ r.len) :
+    ∃ m, Msg.get r pos take = .ok m ∧
+      ((pos < min (r.store.length - r.off) r.len ∧ min (r.store.length - r.off) r.len < pos + take) → m.cont.length = 1) ∧
+      (¬ (pos < min (r.store.length - r.off) r.len ∧ min (r.store.length - r.off) r.len < pos + take) → m.cont = []) := by
+  obtain ⟨h1, h2⟩ := h
+  unfold Msg.get
+  generalize hl : min (r.store.length - r.off) r.len = low0
+  simp only []
+  by_cases hp : pos < low0
+  · simp only [hp, if_true]
+    have g1 : ¬ take > low0 - pos + (r.len - low0) := by omega
+    simp only [g1, if_false]
+    by_cases ht : take ≤ low0 - pos
+    · simp only [ht, if_true]
+      rw [rd_ok _ _ _ (by omega)]
+      refine ⟨_, rfl, ?_, ?_⟩ <;> intro hc <;> first | rfl | (exfalso; omega) | (exfalso; simp at hc; done) | (exfalso; simp at hc; omega)
+    · simp only [ht, if_false]
+      rw [rd_ok _ _ _ (by omega), rd_ok _ _ _ (by omega)]
+      refine ⟨_, rfl, ?_, ?_⟩ <;> intro hc <;> first | rfl | (exfalso; omega) | (exfalso; simp at hc; done) | (exfalso; simp at hc; omega)
+  · simp only [hp, if_false]
+    have g0 : ¬ pos - low0 > r.len - low0 := by omega
+    simp only [g0, if_false]
+    have g1 : ¬ take > r.len - low0 - (pos - low0) + 0 := by omega
+    simp only [g1, if_false]
+    have ht : take ≤ r.len - low0 - (pos - low0) := by omega
+    simp only [ht, if_true]
+    rw [rd_ok _ _ _ (by omega)]
+    refine ⟨_, rfl, ?_, ?_⟩ <;> intro hc <;> first | rfl | (exfalso; omega) | (exfalso; simp at hc; done) | (exfalso; simp at hc; omega)
+
 theorem get_refused (r : Ring) (pos take : Nat) (hgt : r.len < pos + take) :
     ∃ e, Msg.get r pos take = .err e := by
   unfold Msg.get
